@@ -510,6 +510,22 @@ def _equality_kind(f: Func, c: ast.AST, p: bool, a: str, b: str) -> Tuple[bool, 
                 ia = assignments_to(f, it.id)
                 if len(ia) == 1 and ia[0][2] is None:
                     it = ia[0][1]
+            tgt = gen.generators[0].target
+            # `all(x == y for x, y in pairs)` with `pairs = [(a[k], b[k]) for k in a.keys()]`: judge the inner form
+            if isinstance(it, (ast.ListComp, ast.GeneratorExp)) and isinstance(it.elt, ast.Tuple) and isinstance(tgt, ast.Tuple) and len(it.elt.elts) == len(tgt.elts) and len(it.generators) == 1 and not it.generators[0].ifs and all(isinstance(t, ast.Name) for t in tgt.elts):
+                m = {t.id: v for t, v in zip(tgt.elts, it.elt.elts)}
+                if isinstance(l, ast.Name) and isinstance(r, ast.Name) and l.id in m and r.id in m:
+                    l, r = m[l.id], m[r.id]
+                    it = it.generators[0].iter
+            # `all(v == b[k] for k, v in a.items())`: v is a[k]
+            elif isinstance(it, ast.Call) and isinstance(it.func, ast.Attribute) and it.func.attr == "items" and isinstance(it.func.value, ast.Name) and it.func.value.id in (a, b) and isinstance(tgt, ast.Tuple) and len(tgt.elts) == 2 and all(isinstance(t, ast.Name) for t in tgt.elts):
+                kname, vname, owner = tgt.elts[0].id, tgt.elts[1].id, it.func.value.id
+                def unv(x):
+                    if isinstance(x, ast.Name) and x.id == vname:
+                        return ast.Subscript(value=ast.Name(id=owner, ctx=ast.Load()), slice=ast.Name(id=kname, ctx=ast.Load()), ctx=ast.Load())
+                    return x
+                l, r = unv(l), unv(r)
+                it = ast.Name(id=owner, ctx=ast.Load())
             it_ok = False
             if isinstance(it, ast.Call) and isinstance(it.func, ast.Attribute) and it.func.attr == "keys" and isinstance(it.func.value, ast.Name) and it.func.value.id in (a, b):
                 it_ok = True
